@@ -1,3 +1,63 @@
-From HV Require Import Base.Prelude.
-Theorem C16_placeholder : True. Proof. exact I. Qed.
-Print Assumptions C16_placeholder.
+(* C16 - a failing write call changes nothing (store-model part): what a failing call can have written.
+   bp, ba: the error-path patches e5d916a (link pre-check) / 8199862 (attribute-info check) present or not;
+   may_leave_bytes bp ba o = the calls whose failure can leave bytes behind in that configuration. *)
+From HV Require Import Base.Prelude Model.Store Proofs.Store Proofs.StoreOps Proofs.StoreInv Proofs.StoreProps.
+Local Open Scope N_scope.
+
+(* on every error path the bytes written lie in extents allocated by the failing call itself (orphans, not
+   reachable from any object), or - failed hard link only - inside the target's own object header *)
+Theorem C16_failed_call_frame : forall bp ba sb h o,
+  let s := reach bp ba sb h in let s' := fst (step s o) in
+  is_session_op o = false -> op_fails s o -> ovf (st s') = false ->
+  forall w, In w (wlog (st s')) ->
+  exists e, In e (exts (st s')) /\ start e <= fst w /\ fst w + snd w <= ext_end e /\
+            (fail_targets o (owner e) (kind_of e) = true \/ next (al (st s)) <= start e).
+Proof. exact C16_failed_call_frame_l. Qed.
+Print Assumptions C16_failed_call_frame.
+
+(* all other failing calls neither allocate nor write *)
+Theorem C16_failed_call_quiet : forall bp ba sb h o,
+  let s := reach bp ba sb h in
+  is_session_op o = false -> op_fails s o -> may_leave_bytes bp ba o = false ->
+  st (fst (step s o)) = clear_log (st s) /\ objs (fst (step s o)) = objs s.
+Proof. exact C16_failed_call_quiet_l. Qed.
+Print Assumptions C16_failed_call_quiet.
+
+(* a failed call leaves the writer's bookkeeping unchanged (hard links excepted, see below) *)
+Theorem C16_failed_call_bookkeeping : forall bp ba sb h o,
+  let s := reach bp ba sb h in
+  is_session_op o = false -> op_fails s o -> (forall p nl dup t, o <> OpHardLink p nl dup t) ->
+  objs (fst (step s o)) = objs s.
+Proof. exact C16_failed_call_bookkeeping_l. Qed.
+Print Assumptions C16_failed_call_bookkeeping.
+
+(* the exception (without fix e5d916a, link pre-check): a hard link failing in linkToParent leaves
+   its reference-count message in the target header *)
+Theorem C16_hardlink_residue :
+  let s := reach false false 2 hist_hl in let o := OpHardLink 0 1 true 1 in
+  snd (step s o) = false /\
+  option_map o_msgs (get_obj (objs s) 1) = Some [(M_DATATYPE, 12); (M_DATASPACE, 16); (M_LAYOUT, 18)] /\
+  option_map o_msgs (get_obj (objs (fst (step s o))) 1)
+    = Some [(M_DATATYPE, 12); (M_DATASPACE, 16); (M_LAYOUT, 18); (M_REFCOUNT, 4)] /\
+  wlog (st (fst (step s o))) = [(2203, 73); (2203, 73)].
+Proof. exact C16_hardlink_residue_l. Qed.
+Print Assumptions C16_hardlink_residue.
+
+(* a header with no room for the attribute info message: orphans without the early check, quiet with it *)
+Theorem C16_transition_orphans :
+  let o := OpAttrSet 1 None 42 true in
+  (let s := reach false false 2 hist_r10 in
+   snd (step s o) = false /\ List.length (exts (st (fst (step s o)))) = (List.length (exts (st s)) + 5)%nat /\
+   fsize (st s) + 65536 < fsize (st (fst (step s o))) /\ objs (fst (step s o)) = objs s) /\
+  (let s := reach true true 2 hist_r10 in
+   snd (step s o) = false /\ st (fst (step s o)) = clear_log (st s) /\ objs (fst (step s o)) = objs s).
+Proof. exact C16_transition_orphans_l. Qed.
+Print Assumptions C16_transition_orphans.
+
+(* with both patches only two kinds of failing call can leave bytes: a contiguous creation whose header does not
+   fit (data block allocated first) and a chunked write meeting an empty chunk *)
+Theorem C16_patched_failing_calls : forall o,
+  may_leave_bytes true true o = true ->
+  (exists p nl dup ldt rank dsize, o = OpMkContig p nl dup ldt rank dsize) \/ (exists x sizes, o = OpWrite x sizes).
+Proof. exact C16_patched_failing_calls_l. Qed.
+Print Assumptions C16_patched_failing_calls.
